@@ -266,6 +266,16 @@ def run_C13(ctx):
                                            "rules": r["case"]["rules"], "data": r["case"]["data"]})
             continue
         st = dict((n, s) for n, s in impl["rules"])
+        # the laws are about the values the tool LOADED: serde_json (run_checks' loader) rounds some decimal
+        # spellings one ulp away from the correctly rounded double the rule parser produces; such a case
+        # compares two different numbers and says nothing about the comparison algebra (it is C11's domain)
+        if kind_of(a) == "float" and r.get("doc"):
+            import struct as _st
+            want = str(_st.unpack("<Q", _st.pack("<d", a))[0])
+            got = [v.get("v") for v in (r["doc"].get("v") or []) if isinstance(v, dict) and v.get("t") == "float"]
+            if got and got[0] != want:
+                res.stats["skipped:data-float-rounded-differently-by-loader"] += 1
+                continue
         res.nontrivial.add((fam, json.dumps(a), json.dumps(b)))
         fail = None
         if fam == "six":
@@ -2421,6 +2431,14 @@ def c11_doc(g):
              "i": g.ch([0, -1, 10 ** 15, 9223372036854775807, -9223372036854775808]), "f": g.ch([0.5, 1e308, 5e-324, -2.5, 10.0, 1e21])}
     for k in g.r.sample(list(extra), g.ch([1, 2, 3])):
         d[k] = extra[k]
+    # "finite floats": any bit pattern, so that long mantissas and extreme exponents occur
+    import struct as _st
+    for j in range(g.ch([0, 1, 2])):
+        f = _st.unpack("<d", _st.pack("<Q", g.r.getrandbits(64)))[0]
+        if f == f and abs(f) != float("inf"):
+            d["rf%d" % j] = f
+    if g.p(0.3):
+        d["ri"] = g.r.randrange(-2 ** 63, 2 ** 63)
     return d
 
 
@@ -3159,6 +3177,9 @@ C08_ADVERSARIAL = [
     ("rule r { a.b.c.d.e.f.g.h.i.j.k.l.m.n.o.p.q.r.s.t.u.v.w.x.y.z exists\na[0][1][2][3][4][5][6][7][8][9] exists }\n", {"a": {"b": 1}}),
     ("rule r { keys a == 'x'\nsome keys a[*] in ['k']\na[ keys == 'k' ].x exists }\n", {"a": {"k": {"x": 1}}}),
     ("rule r { now() > 0\nparse_epoch('2020-01-01T00:00:00Z') < now()\nparse_epoch(a) == 0 }\n", {"a": "not a date"}),
+    # extreme indices (i32::MIN has no positive counterpart)
+    ("rule r { a[-2147483648] exists\na.-2147483648 exists\na[2147483647] exists\na[-1] == 2\n%v[-2147483648] exists }\nlet v = [1, 2]\n", {"a": [1, 2]}),
+    ("rule r { a[ keys == 'k' ][-2147483648] exists }\nlet k = a.k\nrule s { a[%k][-2147483648] exists\na.%k[-2147483648] exists }\n", {"a": {"k": "k", "x": [1]}}),
     ("rule r { count(a) == 2\ncount(b) == 0\ncount(nothere) == 0\ncount(a[*][*]) >= 0 }\n", {"a": [1, [2, 3]], "b": {}}),
 ]
 
